@@ -571,3 +571,101 @@ api_harness!(future_in_span_pending_poll, stub_ready, {
     drop(f);
     kani::assert(nlog() == 2 && rec(1).kind == 4 && rec(1).set_kind == 1 && rec(1).span_id == sid, "drop_before_completion_finishes_span: dropping the adapter finishes the span once");
 });
+
+// ---- C14: Stream / Sink adapters (fastrace-futures/src/lib.rs compiled as crate::verif_futures_src, K7)
+use crate::verif_futures_src::{SinkExt as VSinkExt, StreamExt as VStreamExt};
+use crate::verif_futures_traits::{Sink, Stream};
+
+struct Strm { end: bool }
+impl Stream for Strm {
+    type Item = u8;
+    fn poll_next(self: Pin<&mut Self>, _cx: &mut Context<'_>) -> Poll<Option<u8>> {
+        unsafe { SEEN_IN_POLL = SpanContext::current_local_parent(); POLLED += 1; }
+        if self.end { Poll::Ready(None) } else { Poll::Ready(Some(5)) }
+    }
+}
+
+api_harness!(stream_in_span_last_call, stub_ready, {
+    let i1 = any_item();
+    kani::assume(i1.is_sampled);
+    let cid: usize = kani::any();
+    let span = Span::new(vec![i1], "stream", Some(cid));
+    let sid = id_of(&span);
+    let mut s = VStreamExt::in_span(Strm { end: true }, span);
+    let waker = Waker::noop();
+    let mut cx = Context::from_waker(&waker);
+    let r = Pin::new(&mut s).poll_next(&mut cx);
+    kani::assert(r == Poll::Ready(None), "adapter_is_transparent: end of stream is passed through");
+    let seen = unsafe { SEEN_IN_POLL };
+    kani::assert(seen.is_some() && seen.unwrap().span_id == sid && seen.unwrap().trace_id == i1.trace_id, "span_is_local_parent_during_call: the adapter's span is the local parent inside poll_next");
+    kani::assert(SpanContext::current_local_parent().is_none(), "context_restored_after_call: no local parent after the call");
+    kani::assert(nlog() == 3, "end_of_stream_finishes_span_exactly_once: local set, span, commit");
+    let (a, b, c) = (rec(0), rec(1), rec(2));
+    kani::assert(a.kind == 4 && a.set_kind == 2 && a.token_len == 1 && a.tok[0].parent_id == sid, "local_spans_of_last_call_precede_span_finish: first the local spans of the call");
+    kani::assert(b.kind == 4 && b.set_kind == 1 && b.span_id == sid, "local_spans_of_last_call_precede_span_finish: then the span itself");
+    kani::assert(c.kind == 3 && c.forced && c.collect_id == cid, "local_spans_of_last_call_precede_span_finish: then the commit");
+    drop(s);
+    kani::assert(nlog() == 3, "end_of_stream_finishes_span_exactly_once: nothing more on drop");
+});
+
+api_harness!(stream_in_span_item_call, stub_ready, {
+    let i1 = any_item();
+    kani::assume(i1.is_sampled);
+    let span = Span::new(vec![i1], "stream", None);
+    let sid = id_of(&span);
+    let mut s = VStreamExt::in_span(Strm { end: false }, span);
+    let waker = Waker::noop();
+    let mut cx = Context::from_waker(&waker);
+    let r = Pin::new(&mut s).poll_next(&mut cx);
+    kani::assert(r == Poll::Ready(Some(5)), "adapter_is_transparent: items are passed through");
+    let seen = unsafe { SEEN_IN_POLL };
+    kani::assert(seen.is_some() && seen.unwrap().span_id == sid, "span_is_local_parent_during_call: the adapter's span");
+    kani::assert(SpanContext::current_local_parent().is_none(), "context_restored_after_call: no local parent after the call");
+    kani::assert(nlog() == 1 && rec(0).kind == 4 && rec(0).set_kind == 2, "item_keeps_span_open: only the call's local spans are submitted");
+    drop(s);
+    kani::assert(nlog() == 2 && rec(1).set_kind == 1 && rec(1).span_id == sid, "drop_finishes_span: dropping the adapter finishes the span once");
+});
+
+struct Snk { last: u8 }
+impl Sink<u8> for Snk {
+    type Error = ();
+    fn poll_ready(self: Pin<&mut Self>, _cx: &mut Context<'_>) -> Poll<Result<(), ()>> { unsafe { SEEN_IN_POLL = SpanContext::current_local_parent(); POLLED += 1; } Poll::Ready(Ok(())) }
+    fn start_send(mut self: Pin<&mut Self>, item: u8) -> Result<(), ()> { unsafe { SEEN_IN_POLL = SpanContext::current_local_parent(); POLLED += 1; } self.last = item; Ok(()) }
+    fn poll_flush(self: Pin<&mut Self>, _cx: &mut Context<'_>) -> Poll<Result<(), ()>> { unsafe { SEEN_IN_POLL = SpanContext::current_local_parent(); POLLED += 1; } Poll::Ready(Ok(())) }
+    fn poll_close(self: Pin<&mut Self>, _cx: &mut Context<'_>) -> Poll<Result<(), ()>> { unsafe { SEEN_IN_POLL = SpanContext::current_local_parent(); POLLED += 1; } Poll::Ready(Ok(())) }
+}
+
+api_harness!(sink_in_span_close, stub_ready, {
+    let i1 = any_item();
+    kani::assume(i1.is_sampled);
+    let cid: usize = kani::any();
+    let span = Span::new(vec![i1], "sink", Some(cid));
+    let sid = id_of(&span);
+    let mut s = VSinkExt::<u8>::in_span(Snk { last: 0 }, span);
+    let waker = Waker::noop();
+    let mut cx = Context::from_waker(&waker);
+    let r = Pin::new(&mut s).poll_close(&mut cx);
+    kani::assert(r == Poll::Ready(Ok(())), "adapter_is_transparent: the close result is passed through");
+    let seen = unsafe { SEEN_IN_POLL };
+    kani::assert(seen.is_some() && seen.unwrap().span_id == sid, "span_is_local_parent_during_call: the adapter's span is the local parent inside poll_close");
+    kani::assert(SpanContext::current_local_parent().is_none(), "context_restored_after_call: no local parent after the call");
+    kani::assert(nlog() == 3, "close_finishes_span_exactly_once: local set, span, commit");
+    let (a, b, c) = (rec(0), rec(1), rec(2));
+    kani::assert(a.kind == 4 && a.set_kind == 2 && a.tok[0].parent_id == sid && b.kind == 4 && b.set_kind == 1 && b.span_id == sid && c.kind == 3 && c.collect_id == cid,
+        "local_spans_of_last_call_precede_span_finish: local spans of the call, then the span, then the commit");
+});
+
+api_harness!(sink_in_span_send, stub_ready, {
+    let i1 = any_item();
+    kani::assume(i1.is_sampled);
+    let span = Span::new(vec![i1], "sink", None);
+    let sid = id_of(&span);
+    let mut s = VSinkExt::<u8>::in_span(Snk { last: 0 }, span);
+    let r = Pin::new(&mut s).start_send(9);
+    kani::assert(r == Ok(()), "adapter_is_transparent: start_send result passed through");
+    let seen = unsafe { SEEN_IN_POLL };
+    kani::assert(seen.is_some() && seen.unwrap().span_id == sid, "span_is_local_parent_during_call: the adapter's span is the local parent inside start_send");
+    kani::assert(SpanContext::current_local_parent().is_none(), "context_restored_after_call: no local parent after the call");
+    kani::assert(nlog() == 1 && rec(0).set_kind == 2, "send_keeps_span_open: only the call's local spans are submitted");
+    std::mem::forget(s);
+});
